@@ -702,10 +702,66 @@ type scriptedStorage struct {
 	badTok int
 	// reqs are the sync times of all requests, failed ones included.
 	reqs []time.Time
+	// onResponse, if set, runs inside Profiles after the response is built.
+	onResponse func()
+	create     *createCtl
+	prebuilt   *profiledb.StorageProfilesResponse
 }
 
-func (s *scriptedStorage) CreateAutoDevice(context.Context, *profiledb.StorageCreateAutoDeviceRequest) (*profiledb.StorageCreateAutoDeviceResponse, error) {
-	return nil, errors.New("not part of this check")
+// createCtl scripts one Storage.CreateAutoDevice call: it signals that the
+// call has arrived, blocks until told to proceed, and creates the device in
+// the world either when the call arrives or when it returns.
+type createCtl struct {
+	entered chan struct{}
+	proceed chan struct{}
+	atEntry bool
+	created agd.DeviceID
+}
+
+func (s *scriptedStorage) createInWorld(req *profiledb.StorageCreateAutoDeviceRequest) (*agd.Device, error) {
+	p := s.w.profs[req.ProfileID]
+	if p == nil || p.Deleted {
+		return nil, &profiledb.BadRequestError{Message: "no such profile"}
+	}
+	hid := agd.HumanIDLower(strings.ToLower(string(req.HumanID)))
+	if owner := s.w.hidOwner(req.ProfileID, hid); owner != "" {
+		return mkDevice(s.w.devs[owner]), nil
+	}
+	for _, id := range s.w.pl.dev {
+		if _, used := s.w.devs[id]; used || s.w.retired["dev"+string(id)] || s.w.everDev[id] {
+			continue
+		}
+		s.w.addDevice(id, req.ProfileID, netip.Addr{}, nil, hid)
+		return mkDevice(s.w.devs[id]), nil
+	}
+	return nil, &profiledb.DeviceQuotaExceededError{Message: "no free device id"}
+}
+
+func (s *scriptedStorage) CreateAutoDevice(_ context.Context, req *profiledb.StorageCreateAutoDeviceRequest) (*profiledb.StorageCreateAutoDeviceResponse, error) {
+	s.mu.Lock()
+	c := s.create
+	if c == nil {
+		s.mu.Unlock()
+		return nil, errors.New("unexpected CreateAutoDevice")
+	}
+	var dev *agd.Device
+	var err error
+	if c.atEntry {
+		dev, err = s.createInWorld(req)
+	}
+	s.mu.Unlock()
+	c.entered <- struct{}{}
+	<-c.proceed
+	if !c.atEntry {
+		s.mu.Lock()
+		dev, err = s.createInWorld(req)
+		s.mu.Unlock()
+	}
+	if err != nil {
+		return nil, err
+	}
+	c.created = dev.ID
+	return &profiledb.StorageCreateAutoDeviceResponse{Device: dev}, nil
 }
 
 func (s *scriptedStorage) Profiles(_ context.Context, req *profiledb.StorageProfilesRequest) (*profiledb.StorageProfilesResponse, error) {
@@ -726,8 +782,17 @@ func (s *scriptedStorage) Profiles(_ context.Context, req *profiledb.StorageProf
 			full = true
 		}
 	}
-	s.last = s.w.response(reqEpoch, full, s.rng)
+	if s.prebuilt != nil && !full {
+		// a response built in advance for exactly this request, so that the
+		// call returns at once
+		s.last, s.prebuilt = s.prebuilt, nil
+	} else {
+		s.last = s.w.response(reqEpoch, full, s.rng)
+	}
 	s.lastFu = full
+	if s.onResponse != nil {
+		s.onResponse()
+	}
 	return s.last, nil
 }
 
@@ -776,6 +841,9 @@ type hookCtl struct {
 	step   int
 	parked []*parkedG
 	hits   map[string]int64
+	// onRelease, if set before any goroutine parks, is called by a released
+	// clean-up goroutine just before it continues.
+	onRelease func(point string)
 }
 
 func newHookCtl() *hookCtl { return &hookCtl{hits: map[string]int64{}} }
@@ -791,6 +859,9 @@ func (h *hookCtl) cb(point string) {
 	h.parked = append(h.parked, g)
 	h.mu.Unlock()
 	<-g.ch
+	if h.onRelease != nil {
+		h.onRelease(point)
+	}
 }
 
 func (h *hookCtl) hitsOf(point string) int64 { h.mu.Lock(); defer h.mu.Unlock(); return h.hits[point] }
